@@ -18,6 +18,14 @@ CHECKS = {
         note=NOTE + "theorems hold under the complement of the code's degeneracy guard; generalisation from the traced element to all "
              "meshes is cross-checked differentially.",
         technique="Lean 4 proof (ring/field identities per element + induction over the element list) tied by symbolic tracing of the NumPy kernel and differential driver"),
+    "C02": dict(
+        text="Theorems for every mesh (no size bound): x.B.y equals the sum over elements of the exact integral of the product of the "
+             "linear interpolants (barycentric moment formula = edge-midpoint rule), symmetry, strictly positive stored entries, entries "
+             "sum to total area/volume, lumped matrix = diagonal of row sums, stand-alone fem_tria_mass returns the solver's triplets. "
+             "Mass kernels re-traced from source each run and bridged by proof; matrices compared differentially.",
+        ref="DESIGN.md 6/C02",
+        note=NOTE + "the barycentric moment formula is adopted as the definition of the exact integral.",
+        technique="Lean 4 proof (per-element identities + induction over elements) tied by symbolic tracing and differential driver"),
 }
 
 NOT_YET = {}
